@@ -71,6 +71,7 @@ class Facts(object):
             self.g, frozenset(), self._transfer, self._edge, include_exc=include_exc)
 
     def _fact(self, pol, expr):
+        pol, expr = positive(pol, expr)
         text = self.textfn(expr)
         if text not in self._names:
             self._names[text] = frozenset(re.findall(r"[A-Za-z_][A-Za-z_0-9]*", text))
@@ -159,6 +160,34 @@ def expr_facts(expr, target, base=frozenset(), textfn=None):
     return rec(expr, frozenset(base))
 
 
+_FLIP = {"T": "F", "F": "T"}
+
+
+def positive(pol, expr):
+    """Canonical polarity of a comparison fact: only `is`, `==`, `in` and strict `<` are kept as operators;
+    `is not`, `!=`, `not in`, `<=`, `>=` become the negation of the positive form, `>` swaps its operands.
+    So `if x is not None:` (true branch) and `if x is None: ... else:` (false branch) establish the same fact."""
+    if isinstance(expr, ast.Compare) and len(expr.ops) == 1:
+        op = expr.ops[0]
+        l, r = expr.left, expr.comparators[0]
+        new = None
+        if isinstance(op, ast.IsNot):
+            new, pol = ast.Compare(left=l, ops=[ast.Is()], comparators=[r]), _FLIP[pol]
+        elif isinstance(op, ast.NotEq):
+            new, pol = ast.Compare(left=l, ops=[ast.Eq()], comparators=[r]), _FLIP[pol]
+        elif isinstance(op, ast.NotIn):
+            new, pol = ast.Compare(left=l, ops=[ast.In()], comparators=[r]), _FLIP[pol]
+        elif isinstance(op, ast.LtE):
+            new, pol = ast.Compare(left=r, ops=[ast.Lt()], comparators=[l]), _FLIP[pol]
+        elif isinstance(op, ast.GtE):
+            new, pol = ast.Compare(left=l, ops=[ast.Lt()], comparators=[r]), _FLIP[pol]
+        elif isinstance(op, ast.Gt):
+            new = ast.Compare(left=r, ops=[ast.Lt()], comparators=[l])
+        if new is not None:
+            return pol, ast.copy_location(new, expr)
+    return pol, expr
+
+
 def atoms(test, pol):
     """Decompose a test known to be `pol` into atomic (pol, expr) facts."""
     if isinstance(test, ast.UnaryOp) and isinstance(test.op, ast.Not):
@@ -169,5 +198,5 @@ def atoms(test, pol):
             for v in test.values:
                 out.extend(atoms(v, pol))
             return out
-        return [(pol, test)]
-    return [(pol, test)]
+        return [positive(pol, test)]
+    return [positive(pol, test)]
